@@ -330,9 +330,12 @@ def _families(tier: str) -> List[Tuple[str, int, List[str]]]:
 
 
 def exhaustive_cases(tier: str, k: int = 0, n: int = 1) -> Iterator[Dict[str, Any]]:
-    """The deterministic part of a tier; shard k of n takes every n-th base sequence of every family."""
+    """The deterministic part of a tier; shard k of n takes the k-th of n contiguous blocks of the base
+    sequences of every family (neighbours share prefixes, which keeps the per-process caches warm)."""
     for kind, length, alphabet in _families(tier):
-        for seq in itertools.islice(itertools.product(alphabet, repeat=length), k, None, n):
+        total = len(alphabet) ** length
+        lo, hi = total * k // n, total * (k + 1) // n
+        for seq in itertools.islice(itertools.product(alphabet, repeat=length), lo, hi):
             if kind == "single":
                 yield {"fam": "single", "seq": list(seq)}
             elif kind == "single-rev":
@@ -442,10 +445,48 @@ class _Verdicts:
             self.seen[clause] = detail or "violated"
 
 
+_LAYOUT_CACHE: Dict[Tuple[Comp, ...], Tuple[Dict[str, str], bool]] = {}
+_RELOAD_CACHE: Dict[str, Optional[str]] = {}
+
+
+def _oracle_for(comps: Tuple[Comp, ...]) -> Tuple[Dict[str, str], bool]:
+    """(layout violations, may be complete) - pure functions of the component list, hence cached"""
+    hit = _LAYOUT_CACHE.get(comps)
+    if hit is None:
+        hit = (layout_violations(comps), o_may_be_complete(comps))
+        if len(_LAYOUT_CACHE) < 200000:
+            _LAYOUT_CACHE[comps] = hit
+    return hit
+
+
+def _reload_verdict(mi, module) -> Optional[str]:
+    """None if Module.from_json(saved form) is identical to the module, else the difference.
+    The saved form is a function of the components and first_in_cds, both part of the state, so the
+    verdict is cached per complete state of the ORIGINAL module (the state is always recomputed)."""
+    before = _state(module)
+    key = repr(before)
+    if key in _RELOAD_CACHE:
+        return _RELOAD_CACHE[key]
+    try:
+        saved = json.loads(json.dumps(module.to_json()))
+        rebuilt = mi.Module.from_json(saved)
+        after = _state(rebuilt)
+        diff = [name for name in before if before[name] != after.get(name)]
+        verdict = None
+        if diff:
+            verdict = (f"{module} reloaded as {rebuilt}; differs in {diff}: "
+                       + "; ".join(f"{k}: {before[k]!r} -> {after.get(k)!r}" for k in diff[:4]))
+    except Exception as err:  # pylint: disable=broad-except
+        verdict = f"reloading {module} raised {type(err).__name__}: {err}"
+    if len(_RELOAD_CACHE) < 200000:
+        _RELOAD_CACHE[key] = verdict
+    return verdict
+
+
 def _check_module(mi, module, verdicts: _Verdicts, reload: bool = True) -> None:
-    comps = _comps_of(module)
+    comps = tuple(_comps_of(module))
     verdicts.note("no-empty-module", len(comps) > 0, "empty module in the result")
-    broken = layout_violations(comps)
+    broken, may_be_complete = _oracle_for(comps)
     for clause in LAYOUT_CLAUSES:
         verdicts.note(clause, clause not in broken, broken.get(clause, ""))
     try:
@@ -453,26 +494,14 @@ def _check_module(mi, module, verdicts: _Verdicts, reload: bool = True) -> None:
     except Exception as err:  # pylint: disable=broad-except
         verdicts.note("never-fails", False, f"is_complete raised {err!r} on {module}")
         complete = False
-    if complete and not o_may_be_complete(comps):
+    if complete and not may_be_complete:
         verdicts.note("complete-only-with-required-parts", False, f"{module} reported complete")
     else:
         verdicts.note("complete-only-with-required-parts", True)
     if not reload:
         return
-    try:
-        saved = json.loads(json.dumps(module.to_json()))
-        rebuilt = mi.Module.from_json(saved)
-    except Exception as err:  # pylint: disable=broad-except
-        verdicts.note("reload-identical", False, f"reloading {module} raised {type(err).__name__}: {err}")
-        return
-    before, after = _state(module), _state(rebuilt)
-    diff = [key for key in before if before[key] != after.get(key)]
-    if diff:
-        verdicts.note("reload-identical", False,
-                      f"{module} reloaded as {rebuilt}; differs in {diff}: "
-                      + "; ".join(f"{k}: {before[k]!r} -> {after.get(k)!r}" for k in diff[:4]))
-    else:
-        verdicts.note("reload-identical", True)
+    verdict = _reload_verdict(mi, module)
+    verdicts.note("reload-identical", verdict is None, verdict or "")
 
 
 def evaluate_single(case: Dict[str, Any]) -> Dict[str, Optional[str]]:
@@ -610,7 +639,8 @@ def _report(case: Dict[str, Any], run) -> None:
     nontrivial = _nontrivial(case)
     first = True
     for clause, failure in verdicts.items():
-        run.check(clause, failure is None, case, nontrivial=nontrivial and first, detail=failure or "")
+        name = clause if failure is None else _bucket(clause, case)
+        run.check(name, failure is None, case, nontrivial=nontrivial and first, detail=failure or "")
         first = False
 
 
@@ -721,8 +751,27 @@ def _f3_trans_at_without_ks(clause: str, case) -> bool:
     return False
 
 
-FINDING_CLASSES: Dict[str, Callable[[str, Any], bool]] = {
+_RAW_CLASSES: Dict[str, Callable[[str, Any], bool]] = {
     "C14-F1": _f1_kr_after_terminated_trans_at,
     "C14-F2": _f2_double_transporter,
     "C14-F3": _f3_trans_at_without_ks,
+}
+
+
+def _base_clause(clause: str) -> str:
+    return clause.split(" [", 1)[0]
+
+
+def _bucket(clause: str, case) -> str:
+    """Failures inside a known class are reported as '<clause> [<finding id>]': the driver keeps only
+    the first 25 failures per clause name, and thousands of known ones would crowd out a new one."""
+    for finding, predicate in _RAW_CLASSES.items():
+        if predicate(clause, case):
+            return f"{clause} [{finding}]"
+    return clause
+
+
+FINDING_CLASSES: Dict[str, Callable[[str, Any], bool]] = {
+    finding: (lambda clause, case, _pred=predicate: _pred(_base_clause(clause), case))
+    for finding, predicate in _RAW_CLASSES.items()
 }
